@@ -27,7 +27,7 @@ import (
 	"verif/internal/model"
 )
 
-const rule = "cases: a shared value of each structure type (certificate, key certificate, keys-and-cert, destination, router identity, router address, RouterInfo, LeaseSet, LeaseSet2 with options and offline block, MetaLeaseSet, EncryptedLeaseSet, offline signature, signature, mapping, lease, Lease2; parsed from a generated model encoding, and for identities / LeaseSet2 also built through the constructors) x 2..16 goroutines, each running a generated list of 5..40 read-only operations drawn from {every exported argument-free method of the value (serialise, hash, addresses, validate, verify, accessors), size-table lookups, parsing other data} with generated runtime.Gosched points behind a start barrier; binary built with -race. Oracle: the race detector reports nothing (a report ends the process and the pending case file is the replay), every concurrent result equals the result of the same operation computed sequentially before the fan-out, and the serialisation is unchanged afterwards. Schedules are sampled, not enumerated. Non-trivial: >= 2 goroutines executed at least one common operation on the same value; distinct by (target, operation lists)."
+const rule = "cases: a shared value of each structure type (certificate, key certificate with known, reserved and unknown type codes, keys-and-cert, destination, router identity, router address, RouterInfo, LeaseSet, LeaseSet2 with options and offline block, MetaLeaseSet, EncryptedLeaseSet, offline signature, signature, mapping, lease, Lease2; parsed from a generated model encoding, and for identities / LeaseSet2 also built through the constructors) x 2..16 goroutines, each running a generated list of 5..40 read-only operations drawn from {every exported argument-free method of the value (serialise, hash, addresses, validate, verify, accessors), size-table lookups, parsing other data} with generated runtime.Gosched points behind a start barrier; binary built with -race. Oracle: the race detector reports nothing (a report ends the process and the pending case file is the replay), every concurrent result equals the result of the same operation computed sequentially before the fan-out, and the serialisation is unchanged afterwards. Schedules are sampled, not enumerated. Non-trivial: >= 2 goroutines executed at least one common operation on the same value; distinct by (target, operation lists)."
 
 func TestMain(m *testing.M) { ev.Main(m, "C18", rule) }
 
@@ -89,7 +89,10 @@ func build(c Case) (any, []byte, int, error) {
 	typ := 0
 	switch c.Target {
 	case "certificate.ReadCertificate", "key_certificate.NewKeyCertificate":
-		b = model.KeyCert(7, 4, []byte{1, 2, 3}).Encode()
+		// known and unknown / reserved type codes (the certificate parsers accept both)
+		st := []int{7, 0, 13, 11, 9, 2, 65535, 3, 10, 1}[c.Seed%10]
+		et := []int{4, 0, 9, 4, 255, 1, 65280, 0, 8, 5}[(c.Seed/10)%10]
+		b = model.KeyCert(st, et, []byte{1, 2, 3}).Encode()
 	case "keys_and_cert.ReadKeysAndCert", "destination.ReadDestination", "router_identity.ReadRouterIdentity":
 		mid, _ := id.Build()
 		if c.Built {
